@@ -41,6 +41,8 @@ func H_parent_chain() {
 		src += "  public static function tag() { return " + itoa(5+i) + "; }\n"
 		if i == 1 {
 			src += "  public static function viaStatic() { return static::tag(); }\n  public static function viaSelf() { return self::tag(); }\n"
+			// forwarding: a self:: call keeps the runtime class for a static:: further down
+			src += "  public static function fwd() { return static::tag(); }\n  public static function viaSelfFwd() { return self::fwd(); }\n  public function instFwd() { return self::fwd(); }\n"
 		}
 		src += "}\n"
 	}
@@ -49,6 +51,9 @@ func H_parent_chain() {
 	}
 	for j := 1; j < n; j++ {
 		src += "emit(K" + itoa(j) + "::viaStatic()); emit(K" + itoa(j) + "::viaSelf());\n"
+	}
+	for j := 1; j < n; j++ {
+		src += "emit(K" + itoa(j) + "::viaSelfFwd()); $o = new K" + itoa(j) + "(); emit($o->instFwd());\n"
 	}
 	s := sx.Compile(src)
 	symx.Assert(s.Err == nil, "chain declarations parse")
@@ -82,6 +87,9 @@ func H_parent_chain() {
 	}
 	for j := 1; j < n; j++ {
 		want = append(want, sx.Obs{Kind: 'i', I: 5 + j}, sx.Obs{Kind: 'i', I: 6})
+	}
+	for j := 1; j < n; j++ {
+		want = append(want, sx.Obs{Kind: 'i', I: 5 + j}, sx.Obs{Kind: 'i', I: 5 + j})
 	}
 	symx.Assert(len(sx.Log) == len(want), "parent-chain: trace length")
 	if len(sx.Log) != len(want) {
